@@ -1,0 +1,82 @@
+//go:build verif
+
+package compiler
+
+// Comment-only file: machine-checked contracts for /verif (see /verif/DESIGN.md).
+// There is no code in this file; the build tag keeps it out of every normal build.
+//
+// The visitor protocol: a callback registered for kind K is only ever invoked on a type of kind K
+// (checked where Visitor calls it), and every function the passes register for K may rely on it.
+//
+//@ fieldfn Visitor.OnArray
+//@   property C04
+//@   requires kind: def.Kind == ast.KindArray
+//
+//@ fieldfn Visitor.OnMap
+//@   property C04
+//@   requires kind: def.Kind == ast.KindMap
+//
+//@ fieldfn Visitor.OnStruct
+//@   property C04
+//@   requires kind: def.Kind == ast.KindStruct
+//
+//@ fieldfn Visitor.OnDisjunction
+//@   property C04
+//@   requires kind: def.Kind == ast.KindDisjunction
+//
+//@ fieldfn Visitor.OnIntersection
+//@   property C04
+//@   requires kind: def.Kind == ast.KindIntersection
+//
+//@ fieldfn Visitor.OnEnum
+//@   property C04
+//@   requires kind: def.Kind == ast.KindEnum
+//
+//@ fieldfn Visitor.OnScalar
+//@   property C04
+//@   requires kind: def.Kind == ast.KindScalar
+//
+//@ fieldfn Visitor.OnRef
+//@   property C04
+//@   requires kind: def.Kind == ast.KindRef
+//
+//@ fieldfn Visitor.OnConstantRef
+//@   property C04
+//@   requires kind: def.Kind == ast.KindConstantRef
+//
+//@ func (*Visitor).VisitArray
+//@   property C04
+//@   requires kind: def.Kind == ast.KindArray
+//
+//@ func (*Visitor).VisitMap
+//@   property C04
+//@   requires kind: def.Kind == ast.KindMap
+//
+//@ func (*Visitor).VisitStruct
+//@   property C04
+//@   requires kind: def.Kind == ast.KindStruct
+//
+//@ func (*Visitor).VisitDisjunction
+//@   property C04
+//@   requires kind: def.Kind == ast.KindDisjunction
+//
+//@ func (*Visitor).VisitIntersection
+//@   property C04
+//@   requires kind: def.Kind == ast.KindIntersection
+//
+//@ func (*Visitor).VisitEnum
+//@   property C04
+//@   requires kind: def.Kind == ast.KindEnum
+//
+//@ func (*Visitor).VisitScalar
+//@   property C04
+//@   requires kind: def.Kind == ast.KindScalar
+//
+//@ func (*Visitor).VisitRef
+//@   property C04
+//@   requires kind: def.Kind == ast.KindRef
+//
+//@ func (*Visitor).VisitConsantRef
+//@   property C04
+//@   requires kind: def.Kind == ast.KindConstantRef
+//
